@@ -84,36 +84,109 @@ type hsBatch struct {
 type originCase struct {
 	Kind   string `json:"kind"` // "origin"
 	Env    EnvCfg `json:"env"`
-	Origin string `json:"origin"`        // "valid" | "expired" | "wrongname" | "untrusted"
+	Origin string `json:"origin"`        // "valid" | "expired" | "wrongname" | "wrongip" | "ipasdns" | "untrusted"
+	Via    string `json:"via,omitempty"` // how the origin is addressed: "" = "dns" | "ip4" | "ip6" (bracketed literal)
+	// Port "" = default port (CONNECT host:443, Host without port); otherwise CONNECT host:port and Host: host:port
+	Port   string `json:"port,omitempty"`
 	XFP    string `json:"xfp,omitempty"` // X-Forwarded-Proto sent by the client inside the session
 	HasXFP bool   `json:"has_xfp,omitempty"`
 }
 
+func (oc *originCase) via() string {
+	if oc.Via == "" {
+		return "dns"
+	}
+	return oc.Via
+}
+
 // domainCase: one CONNECT under a mitm-domains list.
 type domainCase struct {
-	Kind string `json:"kind"` // "domains"
-	Env  EnvCfg `json:"env"`
-	Host string `json:"host"` // one of the routed origin names
+	Kind     string `json:"kind"` // "domains"
+	Env      EnvCfg `json:"env"`
+	Host     string `json:"host"`                // a routed origin name in any letter case, or an IP literal without brackets
+	HostKind string `json:"host_kind,omitempty"` // "" = "dns" | "ip4" | "ip6"
+	Port     string `json:"port,omitempty"`      // "" = "443"
+}
+
+func (dc *domainCase) hostKind() string {
+	if dc.HostKind == "" {
+		return "dns"
+	}
+	return dc.HostKind
+}
+
+func (dc *domainCase) port() string {
+	if dc.Port == "" {
+		return "443"
+	}
+	return dc.Port
 }
 
 // ---- fixture: scripted origins shared by every proxy of a run ----
+
+// origin is one scripted TLS origin of the origin-verification cases.
+type origin struct {
+	Host    string // DNS name or IP literal without brackets the proxy is asked to reach
+	Via     string // "dns" | "ip4" | "ip6"
+	Kind    string
+	leaf    *x509.Certificate
+	sanKind string // "dns" | "ip": the certificate's (single) subject alternative name
+	sanVal  string
+	trusted bool // chains to the CA configured through CACertFiles
+}
 
 type fixture struct {
 	originCA *rig.CA
 	rogueCA  *rig.CA
 	caFile   string
-	tls      map[string]*rig.Peer // by host name
+	tls      map[string]*rig.Peer // by canonical host (lower case)
 	leafFP   map[string]string    // sha256 of the origin's leaf certificate
+	origins  map[string]*origin   // by via/kind
 	plain    *rig.Peer
 	routes   []forwarder.HostPortPair
 }
 
-var originHost = map[string]string{
-	"valid": "valid.test", "expired": "expired.test", "wrongname": "wrongname.test", "untrusted": "untrusted.test",
+var originVias = []string{"dns", "ip4", "ip6"}
+
+// certificate kinds of the scripted origins; "ipasdns" (a dNSName that spells the literal) exists for literals only
+var originKinds = []string{"valid", "expired", "wrongname", "wrongip", "ipasdns", "untrusted"}
+
+func originExists(via, kind string) bool { return !(via == "dns" && kind == "ipasdns") }
+
+// originHostOf: the authority host of the origin (via, kind). Literals are documentation addresses
+// (RFC 5737 / 3849) in canonical text form, reached through connect-to rules like the names.
+func originHostOf(via, kind string) string {
+	idx := 0
+	for i, k := range originKinds {
+		if k == kind {
+			idx = i
+		}
+	}
+	switch via {
+	case "ip4":
+		return fmt.Sprintf("203.0.113.%d", 11+idx)
+	case "ip6":
+		return fmt.Sprintf("2001:db8::c07:%d", 11+idx)
+	}
+	return kind + ".test"
 }
 
-// names that have a TLS origin behind port 443 and the plain listener behind port 80
-var routedNames = []string{"valid.test", "expired.test", "wrongname.test", "untrusted.test", "mitm-a.test", "mitm-skip.test", "skip-a.test", "skip-b.test"}
+// hosts of the mitm-domains cases (canonical spelling); every port of them is routed to their TLS origin
+var domainHostsCanon = []Target{
+	{Host: "allow.test", Kind: "dns"}, {Host: "mitm-a.test", Kind: "dns"}, {Host: "mitm-skip.test", Kind: "dns"},
+	{Host: "skip-a.test", Kind: "dns"}, {Host: "skip-b.test", Kind: "dns"}, {Host: "intranet.corp", Kind: "dns"}, {Host: "db.internal", Kind: "dns"},
+	{Host: "192.0.2.10", Kind: "ip4"}, {Host: "192.0.2.11", Kind: "ip4"},
+	{Host: "2001:db8::d0:1", Kind: "ip6"}, {Host: "2001:db8::d0:2", Kind: "ip6"},
+}
+
+func isDomainHost(canon string) bool {
+	for _, t := range domainHostsCanon {
+		if t.Host == canon {
+			return true
+		}
+	}
+	return false
+}
 
 func responder(name string) rig.Responder {
 	return func(w *rig.PeerConn, ex *rig.Exchange) bool {
@@ -127,8 +200,57 @@ func responder(name string) rig.Responder {
 
 func fp(der []byte) string { h := sha256.Sum256(der); return hex.EncodeToString(h[:8]) }
 
-func newFixture(ctx *core.Ctx) (*fixture, error) {
-	f := &fixture{tls: map[string]*rig.Peer{}, leafFP: map[string]string{}}
+func otherIP(via string) string {
+	if via == "ip6" {
+		return "2001:db8::bad:1"
+	}
+	return "198.51.100.77"
+}
+
+// originLeaf issues the certificate of the origin (via, kind) for host h.
+func (f *fixture) originLeaf(via, kind, h string) (leaf tls.Certificate, sanKind, sanVal string, trusted bool, err error) {
+	now := time.Now()
+	sanKind, sanVal, trusted = "dns", h, true
+	if via != "dns" {
+		sanKind = "ip"
+	}
+	switch kind {
+	case "valid":
+		leaf, err = f.originCA.ValidLeaf(h)
+	case "expired":
+		leaf, err = f.originCA.Leaf(now.Add(-48*time.Hour), now.Add(-time.Hour), h)
+	case "wrongname": // trusted chain, good dates, issued for another DNS name
+		sanKind, sanVal = "dns", "other.test"
+		leaf, err = f.originCA.ValidLeaf(sanVal)
+	case "wrongip": // … for another address
+		sanKind, sanVal = "ip", otherIP(via)
+		leaf, err = f.originCA.ValidLeaf(sanVal)
+	case "ipasdns": // … a dNSName spelling the literal: not an iPAddress SAN
+		sanKind, sanVal = "dns", h
+		leaf, err = f.originCA.LeafSAN(now.Add(-time.Hour), now.Add(12*time.Hour), h, []string{h}, nil)
+	case "untrusted":
+		trusted = false
+		leaf, err = f.rogueCA.ValidLeaf(h)
+	default:
+		err = fmt.Errorf("unknown origin kind %q", kind)
+	}
+	return
+}
+
+func (f *fixture) addPeer(host string, leaf tls.Certificate) (*rig.Peer, error) {
+	p, err := rig.NewTLSPeer("tls:"+host, &tls.Config{Certificates: []tls.Certificate{leaf}}, responder("tls:"+host))
+	if err != nil {
+		return nil, err
+	}
+	f.tls[host] = p
+	f.leafFP[host] = fp(leaf.Certificate[0])
+	return p, nil
+}
+
+// newFixture: spellings = the host spellings (letter case) of mitm-domains cases that need a route
+// besides the canonical ones.
+func newFixture(ctx *core.Ctx, spellings []string) (*fixture, error) {
+	f := &fixture{tls: map[string]*rig.Peer{}, leafFP: map[string]string{}, origins: map[string]*origin{}}
 	var err error
 	if f.originCA, err = rig.NewCA("verif C07 origin CA"); err != nil {
 		return nil, err
@@ -142,29 +264,51 @@ func newFixture(ctx *core.Ctx) (*fixture, error) {
 	if f.plain, err = rig.NewPeer("plain", responder("plain")); err != nil {
 		return nil, err
 	}
-	now := time.Now()
-	for _, n := range routedNames {
-		var leaf tls.Certificate
-		switch n {
-		case "expired.test":
-			leaf, err = f.originCA.Leaf(now.Add(-48*time.Hour), now.Add(-time.Hour), n)
-		case "wrongname.test":
-			leaf, err = f.originCA.ValidLeaf("other.test")
-		case "untrusted.test":
-			leaf, err = f.rogueCA.ValidLeaf(n)
-		default:
-			leaf, err = f.originCA.ValidLeaf(n)
+	// origin-verification cases: ports 443 and 8443 reach the TLS origin, port 80 the plain listener
+	for _, via := range originVias {
+		for _, kind := range originKinds {
+			if !originExists(via, kind) {
+				continue
+			}
+			h := originHostOf(via, kind)
+			leaf, sk, sv, tr, err := f.originLeaf(via, kind, h)
+			if err != nil {
+				return nil, fmt.Errorf("certificate of origin %s/%s: %w", via, kind, err)
+			}
+			p, err := f.addPeer(h, leaf)
+			if err != nil {
+				return nil, err
+			}
+			parsed, err := x509.ParseCertificate(leaf.Certificate[0])
+			if err != nil {
+				return nil, fmt.Errorf("certificate of origin %s/%s: %w", via, kind, err)
+			}
+			f.origins[via+"/"+kind] = &origin{Host: h, Via: via, Kind: kind, leaf: parsed, sanKind: sk, sanVal: sv, trusted: tr}
+			f.routes = append(f.routes, rig.Route(h, "443", p.Addr), rig.Route(h, "8443", p.Addr), rig.Route(h, "80", f.plain.Addr))
 		}
+	}
+	// mitm-domains cases: every port of every spelling reaches the host's TLS origin
+	for _, t := range domainHostsCanon {
+		leaf, err := f.originCA.ValidLeaf(t.Host)
 		if err != nil {
 			return nil, err
 		}
-		p, err := rig.NewTLSPeer("tls:"+n, &tls.Config{Certificates: []tls.Certificate{leaf}}, responder("tls:"+n))
+		p, err := f.addPeer(t.Host, leaf)
 		if err != nil {
 			return nil, err
 		}
-		f.tls[n] = p
-		f.leafFP[n] = fp(leaf.Certificate[0])
-		f.routes = append(f.routes, rig.Route(n, "443", p.Addr), rig.Route(n, "80", f.plain.Addr))
+		f.routes = append(f.routes, rig.Route(t.Host, "", p.Addr))
+	}
+	done := map[string]bool{}
+	for _, sp := range spellings {
+		canon := strings.ToLower(sp)
+		if done[sp] || sp == canon {
+			continue
+		}
+		done[sp] = true
+		if p := f.tls[canon]; p != nil && isDomainHost(canon) {
+			f.routes = append(f.routes, rig.Route(sp, "", p.Addr))
+		}
 	}
 	return f, nil
 }
@@ -657,15 +801,36 @@ func runOrigin(ctx *core.Ctx, pool *envPool, oc *originCase, r *core.Rand) {
 		return
 	}
 	f := pool.f
-	host := originHost[oc.Origin]
-	if host == "" {
-		core.Fatalf("C07: unknown origin kind %q", oc.Origin)
+	via := oc.via()
+	og := f.origins[via+"/"+oc.Origin]
+	if og == nil {
+		core.Fatalf("C07: no scripted origin %s/%s", via, oc.Origin)
 	}
+	host := og.Host
 	id := newID(r, "o")
-	t := Target{Host: host, Kind: "dns", Port: "443", SNI: host}
-	ctx.Case(fmt.Sprintf("origin|%s|%s|%v|%s", oc.Env.key(), oc.Origin, oc.HasXFP, oc.XFP), true)
+	// the client side: CONNECT host:port, SNI for names only (RFC 6066), then Host: host[:port]
+	t := Target{Host: host, Kind: via, Port: "443"}
+	if via == "dns" {
+		t.SNI = host
+	}
+	hostHdr := host
+	if via == "ip6" {
+		hostHdr = "[" + host + "]"
+	}
+	if oc.Port != "" {
+		t.Port = oc.Port
+		hostHdr += ":" + oc.Port
+	}
+	ctx.Case(fmt.Sprintf("origin|%s|%s|%s|%s|%v|%s", oc.Env.key(), via, oc.Origin, oc.Port, oc.HasXFP, oc.XFP), true)
 	ctx.Count("origin/" + oc.Origin)
+	ctx.Count("origin/via-" + via)
+	ctx.Count(fmt.Sprintf("origin/%s/%s/insecure=%v", via, oc.Origin, oc.Env.Insecure))
 	ctx.Count(fmt.Sprintf("origin/insecure=%v", oc.Env.Insecure))
+	if oc.Port == "" {
+		ctx.Count("origin/port-default")
+	} else {
+		ctx.Count("origin/port-" + oc.Port)
+	}
 	if oc.HasXFP {
 		ctx.Count("origin/xfp=" + oc.XFP)
 	} else {
@@ -679,11 +844,12 @@ func runOrigin(ctx *core.Ctx, pool *envPool, oc *originCase, r *core.Rand) {
 	defer hs.client.Close()
 	checkCert(ctx, oc, t, hs, e.pool)
 
-	req := "GET /secret-" + id + " HTTP/1.1\r\nHost: " + host + "\r\nCase-Id: " + id + "\r\n"
+	req := "GET /secret-" + id + " HTTP/1.1\r\nHost: " + hostHdr + "\r\nCase-Id: " + id + "\r\n"
 	if oc.HasXFP {
 		req += "X-Forwarded-Proto: " + oc.XFP + "\r\n"
 	}
 	req += "\r\n"
+	sentAt := time.Now()
 	hs.client.Send([]byte(req), nil)
 	res, rerr := hs.client.ReadResponse("GET", 15*time.Second)
 
@@ -706,15 +872,29 @@ func runOrigin(ctx *core.Ctx, pool *envPool, oc *originCase, r *core.Rand) {
 	default:
 		obs = "delivered-to " + where
 	}
-	impl := fmt.Sprintf("delivered=%q status=%d x-forwarder-error=%q read-error=%v", where, status, fwdErr, rerr)
+	impl := fmt.Sprintf("origin %s (%s) presents %s; delivered=%q status=%d x-forwarder-error=%q read-error=%v", hostHdr, via, describe(og.leaf), where, status, fwdErr, rerr)
 
-	// model
-	originOK := oc.Origin == "valid"
+	// model: the certificate the origin presents, verified for the host of the authority
 	xfp := ""
 	if oc.HasXFP {
 		xfp = oc.XFP
 	}
-	ans := strings.Fields(ctx.Model.MustAsk("C07", "send", "_", core.HexS(xfp), "1", "1", core.B01(oc.Env.Insecure), core.B01(originOK)))
+	ans := strings.Fields(ctx.Model.MustAsk("C07", "origin", core.HexS(xfp), "1", core.B01(oc.Env.Insecure), core.HexS(hostHdr), fmt.Sprint(sentAt.UnixNano()),
+		og.sanKind, core.HexS(og.sanVal), fmt.Sprint(og.leaf.NotBefore.UnixNano()), fmt.Sprint(og.leaf.NotAfter.UnixNano()), core.B01(og.trusted)))
+	if len(ans) != 2 {
+		core.Fatalf("C07 origin: %v", ans)
+	}
+	if vn := string(core.MustUnHex(ans[1])); vn != host {
+		ctx.Disagree("name the origin certificate is verified for (Model.C07.originVerifyName) = host of the authority", oc, host, vn)
+	}
+	if ans[0] != obs {
+		ctx.Disagree("outcome of a request read from the intercepted session = Model.C07.interceptedTo", oc, impl, ans[0])
+	} else {
+		ctx.TraceValidated()
+	}
+	// … and by construction of the case: only the "valid" origin verifies
+	originOK := oc.Origin == "valid"
+	ans = strings.Fields(ctx.Model.MustAsk("C07", "send", "_", core.HexS(xfp), "1", "1", core.B01(oc.Env.Insecure), core.B01(originOK)))
 	if len(ans) != 2 {
 		core.Fatalf("C07 send: %v", ans)
 	}
@@ -732,7 +912,8 @@ func runOrigin(ctx *core.Ctx, pool *envPool, oc *originCase, r *core.Rand) {
 	}
 	if !oc.Env.Insecure && !originOK {
 		if where != "" {
-			ctx.SpecFail("an origin whose certificate does not verify receives no request (insecure mode off)", class, oc, impl, "")
+			ctx.SpecFail("an origin whose certificate does not verify receives no request (insecure mode off)", class, oc, impl,
+				fmt.Sprintf("certificate kind %q, origin addressed by %s as %q", oc.Origin, via, hostHdr))
 		} else {
 			refusedMu.Lock()
 			refusedIDs = append(refusedIDs, refusedID{id, *oc})
@@ -784,34 +965,75 @@ func runDomain(ctx *core.Ctx, pool *envPool, dc *domainCase, r *core.Rand) {
 		return
 	}
 	f := pool.f
-	if f.tls[dc.Host] == nil {
+	canon := strings.ToLower(dc.Host)
+	if f.tls[canon] == nil || !isDomainHost(canon) {
 		core.Fatalf("C07: domain case for unrouted host %q", dc.Host)
 	}
 	id := newID(r, "d")
-	t := Target{Host: dc.Host, Kind: "dns", Port: "443", SNI: dc.Host}
-	filter := "~"
+	t := Target{Host: dc.Host, Kind: dc.hostKind(), Port: dc.port()}
+	if t.Kind == "dns" {
+		t.SNI = dc.Host
+	}
+	// verdicts of the lists (the harness's own reading, regular expression by regular expression) on
+	// the host name alone — what the property speaks of — and on the other spellings of the target a
+	// filter could be handed; the model says which one is looked up
+	filter := "nofilter"
 	incl, excl := true, false
+	portSensitive := false
 	if dc.Env.Domains != nil {
 		incl, excl = e.listVerdict(dc.Host)
-		filter = core.B01(incl) + "/" + core.B01(excl)
+		var items []string
+		seen := map[string]bool{}
+		for _, subj := range []string{dc.Host, dc.Host + ":" + t.Port, t.Authority(), canon} {
+			if seen[subj] {
+				continue
+			}
+			seen[subj] = true
+			i, x := e.listVerdict(subj)
+			if subj != canon && (i != incl || x != excl) {
+				portSensitive = true
+			}
+			items = append(items, core.HexS(subj)+"/"+core.B01(i)+"/"+core.B01(x))
+		}
+		filter = core.JoinList(items)
 	}
-	want := ctx.Model.MustAsk("C07", "path", "1", filter, core.HexS(t.Authority()))
+	ans := strings.Fields(ctx.Model.MustAsk("C07", "pathtab", "1", filter, core.HexS(t.Authority())))
+	if len(ans) != 2 {
+		core.Fatalf("C07 pathtab: %v", ans)
+	}
+	want := ans[0]
+	if subj := string(core.MustUnHex(ans[1])); subj != dc.Host {
+		ctx.Disagree("subject of the mitm-domains filter (Model.C07.urlHostname) = host of the CONNECT authority", dc, dc.Host, subj)
+	}
 	// the property's own reading: excluded or not included → tunnelled
 	specWant := "mitm"
 	if excl || !incl {
 		specWant = "tunnel"
 	}
-	ctx.Case(fmt.Sprintf("domains|%s|%s", dc.Env.key(), dc.Host), true)
+	ctx.Case(fmt.Sprintf("domains|%s|%s|%s", dc.Env.key(), dc.Host, t.Port), true)
 	ctx.Count("domains/expected-" + specWant)
+	ctx.Count("domains/host-" + t.Kind)
+	switch t.Port {
+	case "443", "8443", "80":
+		ctx.Count("domains/port-" + t.Port)
+	default:
+		ctx.Count("domains/port-other")
+	}
+	if dc.Host != canon {
+		ctx.Count("domains/host-not-lower-case")
+	}
+	if portSensitive {
+		ctx.Count("domains/verdict-would-differ-on-host:port")
+	}
 	switch {
 	case dc.Env.Domains == nil:
 		ctx.Count("domains/no-filter")
 	case excl:
-		ctx.Count("domains/excluded")
+		ctx.Count("domains/excluded/port-" + portClass(t.Port))
 	case !incl:
-		ctx.Count("domains/not-included")
+		ctx.Count("domains/not-included/port-" + portClass(t.Port))
 	default:
-		ctx.Count("domains/included")
+		ctx.Count("domains/included/port-" + portClass(t.Port))
 	}
 
 	hs := handshake(e.proxy.Addr, t.Authority(), t.SNI, true)
@@ -822,22 +1044,23 @@ func runDomain(ctx *core.Ctx, pool *envPool, dc *domainCase, r *core.Rand) {
 	defer hs.client.Close()
 	got := "mitm"
 	switch {
-	case fp(hs.Leaf.Raw) == f.leafFP[dc.Host]:
+	case fp(hs.Leaf.Raw) == f.leafFP[canon]:
 		got = "tunnel"
 	case verifyChainOnly(hs, e.pool) != nil:
 		got = "unknown-certificate"
 	}
-	impl := "client saw " + got + ": " + describe(hs.Leaf)
+	impl := fmt.Sprintf("CONNECT %s under mitm-domains %q: client saw %s: %s", t.Authority(), dc.Env.Domains, got, describe(hs.Leaf))
 	if got != want {
-		ctx.Disagree("interception decision = Model.C07.connectPath", dc, impl, want)
+		ctx.Disagree("interception decision = Model.C07.connectPath (filter applied to URL.Hostname())", dc, impl, want)
 	} else {
 		ctx.TraceValidated()
 	}
 	if got != specWant {
+		detail := fmt.Sprintf("host %q: include rule matches=%v, exclude rule matches=%v; port %s", dc.Host, incl, excl, t.Port)
 		if specWant == "tunnel" {
-			ctx.SpecFail("a CONNECT to a host excluded by (or not included in) mitm-domains is tunnelled untouched: the client sees the origin's certificate", "", dc, impl, "")
+			ctx.SpecFail("a CONNECT to a host excluded by (or not included in) mitm-domains is tunnelled untouched on every port: the client sees the origin's certificate", "", dc, impl, detail)
 		} else {
-			ctx.SpecFail("a CONNECT subject to MITM gets a certificate that chains to the configured CA", "", dc, impl, "")
+			ctx.SpecFail("a CONNECT subject to MITM gets a certificate that chains to the configured CA", "", dc, impl, detail)
 		}
 		return
 	}
@@ -855,11 +1078,19 @@ func runDomain(ctx *core.Ctx, pool *envPool, dc *domainCase, r *core.Rand) {
 		ctx.SpecFail("bytes sent through the tunnel reach the origin", "", dc, fmt.Sprintf("no origin received the request; response=%v err=%v", res != nil, rerr), "")
 	case !bytes.Equal(ex.Req.HeadBytes, []byte(sent)):
 		ctx.SpecFail("bytes sent through the tunnel reach the origin untouched", "", dc, fmt.Sprintf("origin read %q", ex.Req.HeadBytes), fmt.Sprintf("client wrote %q", sent))
-	case res == nil || res.Status != 200 || res.Get("X-Origin") != "tls:"+dc.Host || string(res.Body) != "ok:"+id || res.Has("Via"):
+	case res == nil || res.Status != 200 || res.Get("X-Origin") != "tls:"+canon || string(res.Body) != "ok:"+id || res.Has("Via"):
 		ctx.SpecFail("bytes sent by the origin reach the client untouched", "", dc, fmt.Sprintf("response=%+v err=%v", res, rerr), "")
 	default:
 		ctx.TraceValidated()
 	}
+}
+
+func portClass(p string) string {
+	switch p {
+	case "443", "8443", "80":
+		return p
+	}
+	return "other"
 }
 
 func verifyChainOnly(r *hsResult, pool *x509.CertPool) error {
